@@ -412,7 +412,7 @@ func (c *Client) List(_ context.Context, list client.ObjectList, opts ...client.
 			if _, live := w.objs[k]; live || k.GK() != gvk.GroupKind() {
 				continue
 			}
-			if o := w.at(k, w.rv-behind); o != nil && (lo.Namespace == "" || k.Namespace == lo.Namespace) {
+			if o := w.at(k, w.lagRV(behind)); o != nil && (lo.Namespace == "" || k.Namespace == lo.Namespace) {
 				items = append(items, runtime.DeepCopyJSON(o))
 			}
 		}
